@@ -102,7 +102,7 @@ def dropin_noise(rng, rulesets, ticks, p=0.35):
                     cfg["rulesets"].append({"name": "no-such-ruleset", "actions": [W.act(u + ".b")]})
                 else:
                     live.add(tag)
-                ops.append({"op": "add", "tag": tag, "config": cfg})
+                ops.append({"op": "add", "tag": tag, "config": cfg, "_u": u, "_target": tgt})
         t["dropins"] = ops
     return n
 
